@@ -416,8 +416,81 @@ def run_fault(c):
     return problems, outcome
 
 
+# ------------------------------------------------------------------ matplotlib backend: the artists of the returned figure
+def mpl_traces(fig):
+    """the 3-D artists of a matplotlib figure in the shape check_object() understands"""
+    from types import SimpleNamespace
+
+    out = []
+    for ax in fig.axes:
+        for a in ax.collections:
+            vec = getattr(a, "_vec", None)
+            faces = getattr(a, "_faces", None)
+            if faces is not None and np.size(faces):     # matplotlib >= 3.9: (n_faces, n_vertices, 3)
+                P = np.ma.filled(np.ma.asarray(faces), np.nan).reshape(-1, 3)
+                P = P[np.isfinite(P).all(axis=1)]
+                out.append(SimpleNamespace(type="mesh3d", mode=None, x=P[:, 0], y=P[:, 1], z=P[:, 2]))
+            elif vec is not None and np.size(vec):
+                out.append(SimpleNamespace(type="mesh3d", mode=None, x=np.array(vec[0]), y=np.array(vec[1]), z=np.array(vec[2])))
+            elif hasattr(a, "_offsets3d"):
+                x, y, z = a._offsets3d
+                out.append(SimpleNamespace(type="scatter3d", mode="markers", x=np.array(x, float), y=np.array(y, float), z=np.array(z, float)))
+        for ln in ax.lines:
+            x, y, z = ln.get_data_3d()
+            marker = ln.get_marker() not in (None, "None", "", " ")
+            mode = ("lines+markers" if marker else "lines") if ln.get_linestyle() not in ("None", "", " ") else "markers"
+            out.append(SimpleNamespace(type="scatter3d", mode=mode, x=np.array(x, float), y=np.array(y, float), z=np.array(z, float)))
+    return out
+
+
+def run_mpl(c):
+    import matplotlib
+
+    matplotlib.use("Agg")
+    import magpylib as magpy
+    import matplotlib.pyplot as plt
+
+    cls, pk, frames, unit = c["cls"], c["path"], c["frames"], c["unit"]
+    scale = {"m": 1.0, "mm": 1e-3, "km": 1e3}[unit] if c.get("scaled") else 1.0
+    obj = mk(cls, pk, scale)
+    if cls in ("Cuboid", "Cylinder", "CylinderSegment", "Sphere", "Tetrahedron", "TriangularMesh", "Triangle"):
+        obj.style.magnetization.show = False
+    if cls in ("Triangle", "TriangularMesh"):
+        obj.style.orientation.show = False
+    if cls in ("Circle", "Polyline"):
+        obj.style.arrow.show = False
+    if frames != "default":
+        obj.style.path.frames = frames
+    before = snapshot_all([obj])
+    try:
+        with common.time_limit(120):
+            fig = magpy.show(obj, backend="matplotlib", return_fig=True, units_length=unit)
+    except Exception as e:
+        return [f"show-raised-{type(e).__name__}: {e}"[:160]]
+    problems = []
+    try:
+        after = snapshot_all([obj])
+        if after[0] != before[0]:
+            from mc.props import C08
+
+            problems.append("show-changed-objects:" + ",".join(C08.diff_snap(before[0], after[0])[:4]))
+        if after[1] != before[1]:
+            problems.append("show-changed-global-defaults")
+        ax = fig.axes[0]
+        units = {unit_from_title(ax.get_xlabel()), unit_from_title(ax.get_ylabel()), unit_from_title(ax.get_zlabel())}
+        if units != {unit}:
+            problems.append(f"axis-unit-{sorted(map(str, units))}-instead-of-{unit}")
+            return problems
+        problems += check_object(cls, obj, mpl_traces(fig), UNIT_FACTOR[unit], frames, scale)
+    finally:
+        plt.close(fig)
+    return problems
+
+
 def work(c):
     try:
+        if c.get("backend") == "matplotlib":
+            return run_mpl(c)
         if "fault" in c:
             return run_fault(c)[0]
         return run_case(c)
@@ -451,6 +524,16 @@ def enumerate_cases(tier):
                         continue
                     cases.append({"cls": cls, "path": pk, "frames": "default", "unit": "m", "nest": nest, "anim": anim, "scaled": False})
     for cls in CLASSES:
+        if cls in ("Sensor", "Dipole"):
+            continue   # autosized glyphs are backend specific
+        for pk in PATHS:
+            for frames in FRAMES:
+                if (pk == "static" and frames != "default") or (pk == "spin4" and cls == "Sphere"):
+                    continue
+                for unit in (UNITS if tier == "thorough" else ["m", "mm"]):
+                    cases.append({"backend": "matplotlib", "cls": cls, "path": pk, "frames": frames, "unit": unit, "nest": "bare", "anim": False,
+                                  "scaled": unit != "m"})
+    for cls in CLASSES:
         for fault in SHOW_FAULTS:
             for pos in ((0, 1, 2) if fault.startswith("trace") else (0,)):
                 if tier == "quick" and pos == 2:
@@ -469,6 +552,10 @@ def run(tier, seed):
                 harness.append(f"{c}: {p}")
                 continue
             kind = p.split(":")[0]
+            if c.get("backend") == "matplotlib":
+                fr_ = "frames-list" if isinstance(c["frames"], list) else f"frames-{c['frames']}"
+                viols.append({"key": f"C19|matplotlib|{c['cls']}|{c['path']}|{fr_}|{kind}", "what": f"{c}: {p}", "case": c, "observed": p})
+                continue
             if "fault" in c:
                 viols.append({"key": f"C19|{c['cls']}|fault={c['fault']}|{kind}", "what": f"{c}: {p}", "case": c, "observed": p})
                 continue
